@@ -72,7 +72,24 @@ CUpd(m, e) ==
 \* in force from callback K + dl on - unless a later command has been read by then, which replaces it whole
 \* ("none is applied late": a superseded command never takes effect).  later[k] = <<>> or <<[x, n]>>, n callbacks to go.
 IsDl(k) == k = "m.dset"
-HInit(init) == [ val |-> init, pend |-> [k \in DOMAIN init |-> <<>>], later |-> [k \in DOMAIN init |-> <<>>] ]
+\* The key "st.seek" is the seek_to of a STREAMING sound: it takes effect "at the decoder's next step", so it is heard
+\* once the frames buffered before that step have been played - at most the frame ring (m.ring frames) plus the
+\* interpolator's window later.  pend[k] is then the sequence of outstanding seeks [x, age] (age = callbacks gone by):
+\* a jump must land on an outstanding target (which settles it and every earlier one), the newest one must land in time,
+\* and without an outstanding seek the sound just continues.  obs = last frame heard, cont = last frame had nothing jumped.
+IsSj(k) == k = "st.seek"
+SjLanded(m, e, k) == {i \in 1..Len(m.pend[k]) : m.pend[k][i].x <= e.obs[k] /\ e.obs[k] <= m.pend[k][i].x + e.n - 1}
+SjBad(m, e, k) ==
+  IF e.obs[k] = e.cont[k]
+  THEN (IF \E i \in 1..Len(m.pend[k]) : (m.pend[k][i].age + 1) * e.n > m.ring + 2 * e.n + 8 THEN "seek_heard_within_ring_latency" ELSE "")
+  ELSE IF SjLanded(m, e, k) # {} THEN ""
+  ELSE IF m.pend[k] = <<>> THEN "no_effect_without_command_and_not_reapplied"
+  ELSE "seek_lands_on_requested_frame"
+SjPend(m, e, k) ==
+  LET rest == IF e.obs[k] = e.cont[k] \/ SjLanded(m, e, k) = {} THEN m.pend[k]
+              ELSE LET i == CHOOSE j \in SjLanded(m, e, k) : \A h \in SjLanded(m, e, k) : h <= j IN SubSeq(m.pend[k], i + 1, Len(m.pend[k]))
+  IN [j \in 1..Len(rest) |-> [rest[j] EXCEPT !.age = @ + 1]]
+HInit(init) == [ val |-> init, pend |-> [k \in DOMAIN init |-> <<>>], later |-> [k \in DOMAIN init |-> <<>>], ring |-> 0 ]
 
 \* value in force after this callback / delayed command still waiting after it, for a delayed key
 DlVal(m, k) == IF m.pend[k] # <<>> THEN (IF m.pend[k][1].dl = 0 THEN m.pend[k][1].x ELSE m.val[k])
@@ -89,7 +106,8 @@ Expected(m, e, k) ==
 
 Wrong(m, e) ==
   { k \in DOMAIN m.val :
-      IF e.jump[k] = "no" THEN e.obs[k] # Expected(m, e, k)
+      IF IsSj(k) THEN SjBad(m, e, k) # ""
+      ELSE IF e.jump[k] = "no" THEN e.obs[k] # Expected(m, e, k)
       ELSE e.obs[k] - Expected(m, e, k) > 1 \/ Expected(m, e, k) - e.obs[k] > 4 }
 
 HCheck(m, e) ==
@@ -98,18 +116,20 @@ HCheck(m, e) ==
          IF e.panicked THEN "no_panic"
          ELSE IF Wrong(m, e) = {} THEN ""
          ELSE LET k == CHOOSE x \in Wrong(m, e) : TRUE IN
-              IF IsDl(k) /\ m.pend[k] = <<>> /\ m.later[k] # <<>> THEN "delayed_command_applied_when_due_unless_superseded"
+              IF IsSj(k) THEN SjBad(m, e, k)
+              ELSE IF IsDl(k) /\ m.pend[k] = <<>> /\ m.later[k] # <<>> THEN "delayed_command_applied_when_due_unless_superseded"
               ELSE IF m.pend[k] = <<>> THEN "no_effect_without_command_and_not_reapplied"
               ELSE "last_write_applied_at_next_callback"
     [] e.a = "panic" -> "no_panic"
     [] OTHER -> ""
 
 HUpd(m, e) ==
-  CASE e.a = "w" -> [m EXCEPT !.pend[e.key] = <<e.v>>]
+  CASE e.a = "w" -> IF IsSj(e.key) THEN [m EXCEPT !.pend[e.key] = Append(@, [x |-> e.v.x, age |-> 0])]
+                    ELSE [m EXCEPT !.pend[e.key] = <<e.v>>]
     [] e.a = "cb" -> [m EXCEPT !.val = [k \in DOMAIN m.val |->
                                          IF IsDl(k) THEN DlVal(m, k)
-                                         ELSE IF m.pend[k] = <<>> \/ e.jump[k] # "no" THEN m.val[k] ELSE m.pend[k][1]],
+                                         ELSE IF IsSj(k) \/ m.pend[k] = <<>> \/ e.jump[k] # "no" THEN m.val[k] ELSE m.pend[k][1]],
                                !.later = [k \in DOMAIN m.val |-> IF IsDl(k) THEN DlLater(m, k) ELSE <<>>],
-                               !.pend = [k \in DOMAIN m.val |-> <<>>]]
+                               !.pend = [k \in DOMAIN m.val |-> IF IsSj(k) THEN SjPend(m, e, k) ELSE <<>>]]
     [] OTHER -> m
 =============================================================================
